@@ -41,6 +41,7 @@ selftest/mutants/F23-reintroduce.patch C07
 selftest/mutants/F24-reintroduce.patch C07
 selftest/mutants/F25-reintroduce.patch C07
 selftest/mutants/F27-reintroduce.patch C02
+selftest/mutants/F28-reintroduce.patch C08
 seeded/C15-c/patch.diff C15
 seeded/C19-c/patch.diff C19
 seeded/C11-c/patch.diff C11
